@@ -19,6 +19,7 @@ def check(ctx):
     exceptions.raw_input_validated_first(ctx, 'C08-R4')
     indexing.data_index_state(ctx, 'C08-R5')
     indexing.name_keyed_operations(ctx, 'C08-R5')
+    indexing.positions_are_not_labels(ctx, 'C08-R5')
     exceptions.locals_bound_before_use(ctx, 'C08-R6')
     exceptions.patterns_are_literals(ctx, 'C08-R7')
     # R8: non-detections stay non-detections through the scalings: find_slices picks the rows to cluster on the scaled
